@@ -98,7 +98,7 @@ fn interner_alive() -> bool {
 /// not this property's business and must not take the schedule down with it).
 fn alone_in_child(c: &CCase) -> Option<Vec<String>> {
     use std::io::Write;
-    let dir = std::env::temp_dir().join(format!("mmv-c19-{}", std::process::id()));
+    let dir = std::env::current_dir().unwrap_or_else(|_| std::env::temp_dir()).join(format!("mmv-c19-{}", std::process::id()));
     let _ = std::fs::create_dir_all(&dir);
     let cf = dir.join("case.json");
     {
